@@ -160,10 +160,19 @@ def direction_B(ctx, thorough):
             for al in ((4096, 65536) if not thorough else (512, 8192, 1 << 20)):
                 tid += 1
                 plan.append((tid, fmt, al, True))
+    # StorageStream (Parallels storages stitched together) at every buffer size
+    c10 = importlib.import_module("props.c10")
+    for al in ALIGNS:
+        tid += 1
+        plan.append((tid, "storage", al, False))
     byid = {t[0]: t for t in plan}
 
     def mk(tid, rng):
         _, fmt, al, many = byid[tid]
+        if fmt == "storage":
+            t = c10.make_trace_hdd(tid, rng, 60 if thorough else 30, align=al)
+            t["align"], t["many"] = al, False
+            return t
         m = mods[fmt]
         if fmt == "vhdx" and al % 4096:
             al = 4096  # the image may use 4096-byte sectors; the buffer must be a multiple of the sector size
